@@ -328,6 +328,13 @@ def run(ck, replay=None):
     if "DependsOnlyOnArguments" not in reg.violated:
         raise MachineryError("JacobiImpl no longer rejects the cached-diagonal rule (vacuity guard)")
     mg_levels(ck, import_darsia())
+    # parameters replaced one at a time on a living solver object (SolverParams.tla): TLC's histories become call sequences
+    ck.sany("SolverParams")
+    rp = ck.model_check("SolverParams", "SolverParams_fixed.cfg", workers=2)
+    param_hists = sorted({tuple(tuple(x) for x in p[1]) for p in rp.printed("SCN")})
+    regp = ck.tlc("SolverParams", "SolverParams_percoefficient.cfg", workers=1, expect_ok=False, label="regression-model")
+    if "CallUsesCurrentParameters" not in regp.violated:
+        raise MachineryError("SolverParams no longer rejects a diagonal kept across a change of dimension (vacuity guard)")
     rng = random.Random(ck.seed)
     quick = ck.tier == "quick"
     allkeys = sorted({k for v in ALPHABET.values() for k in v})
@@ -338,6 +345,12 @@ def run(ck, replay=None):
         # TLC's histories over the Jacobi letters (quick: all of length <= 2 and a sample of longer ones)
         mh = [h for h in model_hists if len(h) <= 2] + rng.sample([h for h in model_hists if len(h) > 2], 25 if quick else 500)
         seqs += [[letter_to_key(x) for x in h] for h in mh]
+        ph = [h for h in param_hists if len(h) >= 2]
+        for h in rng.sample(ph, min(len(ph), 40 if quick else 800)):
+            obj = rng.choice(["JP", "JP", "MGP"])
+            if obj == "MGP" and any(x[1] != 2 for x in h):
+                obj = "JP"          # the multigrid transfer operators are two-dimensional
+            seqs.append([f"{obj}|{x[1]}|{float(x[2]):.1f}|{x[3] / 4:.2f}|{x[0]}" for x in h])
         # every ordered pair inside a family that shares an object, plus seeded longer mixtures
         for fam, keys in ALPHABET.items():
             for a in keys:
